@@ -1,7 +1,8 @@
 //! seed -> Case, per property (DESIGN.md §3).
 
-use crate::case::{Case, Mode, Noise};
-use crate::gen::{self, KeyType, Profile, Workload, KEY_TYPES};
+use crate::case::{Case, CutSel, Mode, Noise, SiteSel};
+use crate::driver::Spec;
+use crate::gen::{self, Cfg, ContentSpec, KeyType, Op, Profile, Workload, KEY_TYPES};
 use crate::keys::{gen_keys, SimKey};
 use crate::rng::{mix, mix_str, Rng};
 
@@ -13,11 +14,15 @@ fn keys_hex<K: SimKey>(rng: &mut Rng, n: usize, big: bool) -> Vec<String> {
     gen_keys::<K>(rng, n, big).iter().map(|k| hex::encode(k.kb())).collect()
 }
 
+pub fn gen_keys_hex(rng: &mut Rng, key_type: KeyType, n: usize, big: bool) -> Vec<String> {
+    crate::dispatch_key_type!(key_type, keys_hex(rng, n, big))
+}
+
 pub fn gen_workload(rng: &mut Rng, p: &Profile) -> Workload {
     let key_type: KeyType = *rng.pick(&KEY_TYPES);
     let nk = 3 + rng.below(p.max_keys.saturating_sub(2).max(1) as u64) as usize;
     let big = p.big_keys && rng.chance(1, 4);
-    let keys_hex = crate::dispatch_key_type!(key_type, keys_hex(rng, nk, big));
+    let keys_hex = gen_keys_hex(rng, key_type, nk, big);
     let nk = keys_hex.len();
     let cfg = gen::gen_cfg(rng, p);
     let contents = gen::gen_contents(rng, p);
@@ -26,36 +31,307 @@ pub fn gen_workload(rng: &mut Rng, p: &Profile) -> Workload {
     Workload { key_type, keys_hex, content_seed, contents, cfg, ops }
 }
 
-pub fn gen_case(prop: &str, seed: u64, tier: &str) -> Case {
+fn noise(rng: &mut Rng) -> Noise {
+    Noise { short_write_pm: 300, short_read_pm: 300, eintr_pm: 100, seed: rng.next() }
+}
+
+fn crash_profile(thorough: bool) -> Profile {
+    let mut p = Profile::base();
+    p.mutating_only = true;
+    p.min_ops = 3;
+    p.max_ops = if thorough { 15 } else { 10 };
+    p.w_checkpoint = 6;
+    p.w_reopen = 3;
+    p.w_abort = 3;
+    p.w_remove_range = 10;
+    p
+}
+
+pub fn gen_case(prop: &str, seed: u64, tier: &str, run: u64) -> Case {
+    if cfg!(feature = "conc") {
+        return crate::props_conc::gen_case(prop, seed, tier, run);
+    }
     let mut rng = Rng::new(seed);
     let thorough = tier == "thorough";
     let mut p = Profile::base();
     if thorough {
         p.max_ops = 40;
     }
-    let mut noise = None;
-    let mode = Mode::Plain;
+    let mut nz = None;
+    let mut mode = Mode::Plain;
     match prop {
         "C01" => {
             // second run class "noisy": short writes/reads + EINTR must be invisible
             if rng.chance(1, 3) {
-                noise = Some(Noise { short_write_pm: 300, short_read_pm: 300, eintr_pm: 100, seed: rng.next() });
+                nz = Some(noise(&mut rng));
             }
         }
+        "C02" => {
+            p.w_reopen = 14;
+            p.w_checkpoint = 8;
+            p.boundary_reopen = true;
+            p.w_read = 10;
+            p.n_choices = vec![1, 1, 2, 3, 4, 5, 7, 10, 10_000];
+        }
+        "C03" => {
+            p = crash_profile(thorough);
+            mode = Mode::Crash {
+                cuts: CutSel::All { max: if thorough { 400 } else { 150 }, sseed: rng.next() },
+                depth: if thorough && rng.chance(1, 4) { 3 } else { 2 },
+                suffix_every: if thorough { 3 } else { 8 },
+                verify: rng.chance(1, 2),
+            };
+        }
+        "C06" => match rng.below(4) {
+            0 | 1 => {
+                p.w_reader = 30;
+                p.w_put = 30;
+                p.w_remove = 15;
+                p.w_remove_range = 10;
+                p.w_checkpoint = 6;
+                if rng.chance(1, 3) {
+                    nz = Some(noise(&mut rng));
+                }
+            }
+            2 => {
+                p = crash_profile(thorough);
+                mode = Mode::Crash { cuts: CutSel::All { max: 80, sseed: rng.next() }, depth: 1, suffix_every: 0, verify: true };
+            }
+            _ => {
+                p = crash_profile(thorough);
+                p.allow_async = false;
+                mode = Mode::Power { cuts: CutSel::All { max: 40, sseed: rng.next() } };
+            }
+        },
+        "C07" => {
+            p.w_reopen = 4;
+            p.w_audit = 12;
+            p.w_remove = 15;
+            p.w_remove_range = 8;
+        }
+        "C08" => {
+            p = crash_profile(thorough);
+            mode = Mode::Orphans { pseed: rng.next() };
+        }
+        "C09" => {
+            p = crash_profile(thorough);
+            p.allow_async = false;
+            mode = Mode::Power { cuts: CutSel::All { max: if thorough { 200 } else { 60 }, sseed: rng.next() } };
+        }
+        "C10" => {
+            p = crash_profile(thorough);
+            p.w_reopen = 0;
+            p.w_checkpoint = 2;
+            p.n_choices = vec![2, 3, 5, 10, 10_000, 10_000];
+            p.min_ops = 2;
+            p.max_ops = 9;
+            mode = Mode::LogDamage { budget: if thorough { 6000 } else { 700 }, dseed: rng.next() };
+        }
+        "C12" => {
+            if rng.chance(1, 4) {
+                p = crash_profile(thorough);
+                mode = Mode::Crash { cuts: CutSel::All { max: 60, sseed: rng.next() }, depth: 1, suffix_every: 4, verify: false };
+            } else {
+                p.w_reopen = 5;
+                p.w_audit = 15;
+                p.w_put = 40;
+                p.w_remove_range = 10;
+                p.max_keys = 6;
+            }
+        }
+        "C13" => {
+            p.w_abort = 30;
+            p.w_reopen = 5;
+            p.w_put = 20;
+            if rng.chance(1, 4) {
+                nz = Some(noise(&mut rng));
+            }
+        }
+        "C14" => {
+            p = crash_profile(thorough);
+            p.max_ops = 8;
+            let errno = *rng.pick(&[libc::EIO, libc::ENOSPC, libc::EMFILE, libc::EACCES]);
+            mode = Mode::Err { site: SiteSel::All { max: if thorough { 400 } else { 120 }, sseed: rng.next() }, errno, suffix_seed: rng.next() };
+        }
+        "C16" => {
+            if rng.chance(1, 5) {
+                p.w_reopen = 10;
+                p.w_checkpoint = 8;
+            } else {
+                p = crash_profile(thorough);
+                mode = Mode::Forge { fseed: rng.next(), budget: if thorough { 1500 } else { 250 } };
+            }
+        }
+        "C17" => return gen_c17(&mut rng, run),
+        "C18" => return gen_c18(&mut rng, run),
+        "C19" => {
+            p.w_c19 = 14;
+            p.w_reopen = 4;
+            p.allow_precreate = true;
+            p.max_ops = 14;
+        }
+        "C20" => match rng.below(3) {
+            0 => {
+                p.w_reopen = 10;
+                p.w_checkpoint = 8;
+                p.boundary_reopen = true;
+                p.w_read = 3;
+                p.w_reader = 0;
+            }
+            1 => {
+                p = crash_profile(thorough);
+                p.w_reopen = 8;
+            }
+            _ => {
+                p = crash_profile(thorough);
+                mode = Mode::Crash { cuts: CutSel::All { max: 60, sseed: rng.next() }, depth: 2, suffix_every: 3, verify: false };
+            }
+        },
         _ => {}
     }
     let workload = gen_workload(&mut rng, &p);
-    Case { property: prop.to_string(), workload, noise, mode }
+    Case { property: prop.to_string(), workload, noise: nz, mode }
 }
 
-pub fn spec_more(_prop: &str) -> Option<crate::driver::Spec> {
+/// C17: the (L, start, end) cube. Runs 0..=6 enumerate all (start,end) in [0, L+2]^2 for L = run;
+/// later runs use L around buffer sizes with boundary bounds; half the runs add short reads.
+fn gen_c17(rng: &mut Rng, run: u64) -> Case {
+    let key_type = *rng.pick(&KEY_TYPES);
+    let keys_hex = gen_keys_hex(rng, key_type, 2, false);
+    let l: usize = if run <= 6 { run as usize } else { *rng.pick(&[7usize, 8, 100, 4095, 4096, 8191, 8192, 8193, 16384, 70_000]) };
+    let contents = vec![ContentSpec { stream: 1, size: l }, ContentSpec { stream: 2, size: (l / 2).max(1) }];
+    let mut ops = vec![Op::Put { k: 0, c: 0, chunks: vec![l], abort: false }];
+    if run <= 6 {
+        for s in 0..=(l as u64 + 2) {
+            for e in 0..=(l as u64 + 2) {
+                ops.push(Op::GetRange { k: 0, start: s, end: e });
+            }
+        }
+    } else {
+        let l64 = l as u64;
+        let specials = [0u64, 1, l64 - 1, l64, l64 + 1, (1 << 32) - 1, 1 << 32, 1 << 63, u64::MAX];
+        for &s in &specials {
+            for &e in &specials {
+                ops.push(Op::GetRange { k: 0, start: s, end: e });
+            }
+        }
+        for _ in 0..30 {
+            let (s, e) = gen::gen_range_bounds(rng, l64);
+            ops.push(Op::GetRange { k: 0, start: s, end: e });
+        }
+    }
+    ops.push(Op::GetRange { k: 1, start: 0, end: 5 }); // absent key
+    ops.push(Op::GetSize { k: 0 });
+    ops.push(Op::OpenReader { k: 0 });
+    // overwrite while the reader is open, then drain: complete original content
+    ops.push(Op::Put { k: 0, c: 1, chunks: vec![contents[1].size], abort: false });
+    ops.push(Op::GetRange { k: 0, start: 0, end: u64::MAX });
+    ops.push(Op::DrainReaders);
+    let cfg = Cfg { n: *rng.pick(&[1u64, 3, 10_000]), async_mode: rng.chance(1, 3), scan: false, verify: false, fail_on_integrity: true, pre_create: false };
+    let nz = if rng.chance(1, 2) { Some(Noise { short_write_pm: 0, short_read_pm: 500, eintr_pm: 0, seed: rng.next() }) } else { None };
+    Case { property: "C17".into(), workload: Workload { key_type, keys_hex, content_seed: rng.next(), contents, cfg, ops }, noise: nz, mode: Mode::Plain }
+}
+
+/// C18: chunkings. Runs 0..=5: content of length `run`, *all* 2^(len-1) chunkings (plus variants
+/// with empty chunks); later runs: random contents incl. > 8 KiB under short writes / EINTR.
+fn gen_c18(rng: &mut Rng, run: u64) -> Case {
+    let key_type = *rng.pick(&KEY_TYPES);
+    let keys_hex = gen_keys_hex(rng, key_type, 3, false);
+    let nk = keys_hex.len();
+    let mut ops = Vec::new();
+    let contents;
+    if run <= 5 {
+        let l = run as usize;
+        contents = vec![ContentSpec { stream: 1, size: l }];
+        let n_masks = if l == 0 { 1 } else { 1u32 << (l - 1) };
+        for mask in 0..n_masks {
+            let mut chunks = Vec::new();
+            let mut cur = 0usize;
+            for i in 0..l {
+                cur += 1;
+                let cut_after = i + 1 < l && mask & (1 << i) != 0;
+                if cut_after {
+                    chunks.push(cur);
+                    cur = 0;
+                }
+            }
+            chunks.push(cur);
+            if l == 0 {
+                chunks = vec![0];
+            }
+            ops.push(Op::Put { k: 0, c: 0, chunks: chunks.clone(), abort: false });
+            ops.push(Op::Remove { k: 0 });
+            // same chunking with empty chunks interleaved, other key, blob re-created
+            let mut with_empty = vec![0];
+            for c in &chunks {
+                with_empty.push(*c);
+                with_empty.push(0);
+            }
+            ops.push(Op::Put { k: 1 % nk, c: 0, chunks: with_empty, abort: false });
+            ops.push(Op::Remove { k: 1 % nk });
+        }
+    } else {
+        let mut specs = Vec::new();
+        for i in 0..4 {
+            let size = if rng.chance(1, 2) { *rng.pick(&gen::SIZES) } else { rng.below(30_000) as usize };
+            specs.push(ContentSpec { stream: i + 1, size });
+        }
+        contents = specs;
+        for _ in 0..14 {
+            let c = rng.below(contents.len() as u64) as usize;
+            let k = rng.below(nk as u64) as usize;
+            ops.push(Op::Put { k, c, chunks: gen::gen_chunks(rng, contents[c].size), abort: false });
+            if rng.chance(1, 2) {
+                ops.push(Op::Remove { k });
+            }
+            if rng.chance(1, 4) {
+                ops.push(Op::Get { k });
+            }
+        }
+    }
+    let cfg = Cfg { n: *rng.pick(&[1u64, 4, 10_000]), async_mode: rng.chance(1, 3), scan: true, verify: true, fail_on_integrity: true, pre_create: false };
+    let nz = if run > 5 && rng.chance(2, 3) { Some(Noise { short_write_pm: 400, short_read_pm: 100, eintr_pm: 150, seed: rng.next() }) } else { None };
+    Case { property: "C18".into(), workload: Workload { key_type, keys_hex, content_seed: rng.next(), contents, cfg, ops }, noise: nz, mode: Mode::Plain }
+}
+
+pub fn spec_more(prop: &str) -> Option<Spec> {
+    let s = |id, build, level, q, t, rule| Some(Spec { id, build, level, quick_runs: q, thorough_runs: t, rule });
+    match prop {
+        "C02" => s("C02", "seq", "exploration", 6000, 60000, "seeded histories with Reopen/Checkpoint placed preferentially at version mod N in {0,1,N-1}, runs of consecutive reopens, N=1 over-represented; observable snapshot (iter, get bytes, known_blobs, stats) before drop == after open == model; evaluation = one history; distinct = (model state, disk shape) pairs"),
+        "C03" => s("C03", "seq", "fault_enumeration", 500, 5000, "per sampled history (3-10 mutating ops quick, 3-15 thorough) every boundary between mutating calls is a process-kill cut when the trace has <= 150 (400) boundaries, else all boundaries of the last 3 ops + random ones; each image is recovered by the real code and compared with {M_{i-1}, M_i}; every recovery's own trace is cut again (depth 2, sampled depth 3); every 8th (3rd) image continues with clean-up + a usability suffix; evaluation = one judged image; distinct = (cut index, chosen model, call, role) fingerprints"),
+        "C06" => s("C06", "seq", "exploration", 2500, 25000, "MON-cas-immutable at every intercepted call of reader-heavy histories (readers opened before overwrite/remove/checkpoint, drained after), of crash-image recoveries and of power-loss images; every cas file re-hashed against its name at quiescence"),
+        "C07" => s("C07", "seq", "exploration", 6000, 60000, "after every mutating step of every fault-free history: file set under cas/ == {path(blake3(c)) | c referenced in model}, staging/ empty; start-up scan after clean restart reports nothing"),
+        "C08" => s("C08", "seq", "exploration", 800, 8000, "crash images of seeded histories plus planted garbage (well-formed names of arbitrary hashes, ill-formed names, stray files at all depths, damaged referenced blobs, leftover staging files); OrphanStats and RecoveryResult compared with the checker's own directory/index comparison; one of the three clean-ups applied and its effect on the directory checked"),
+        "C09" => s("C09", "seq", "fault_enumeration", 400, 4000, "Sync mode only; per sampled history, per sampled cut (<= 60 quick / 200 thorough boundaries): all 2^d loss sets of the d dirty files when d <= 4, else all/none/singletons/8 random; power-loss image = directory tree as of the cut, lost files at their last-synced bytes; judged like C03"),
+        "C10" => s("C10", "seq", "fault_enumeration", 250, 2500, "per sampled history with an un-checkpointed tail: every truncation offset when the tail is <= 2 KiB (else record-relative offsets {0,1,7,8,39,40,43,44,45,mid,len-1}) and every checksum/payload byte x {^01,^80,!b,random} when <= 1 KiB (else sampled), capped by a per-history budget; open must fail or yield exactly the state after the undamaged prefix"),
+        "C12" => s("C12", "seq", "exploration", 5000, 50000, "known_blobs/contains_blob_hash/stats/get_size vs. model multiplicities after every audit, every reopen and every judged crash recovery; overflow checks enabled in the build"),
+        "C13" => s("C13", "seq", "exploration", 5000, 50000, "aborted transactions (30% of ops) at every position, after any chunking, over existing values and existing blobs: directory fingerprint (cas/, staging/, WAL bytes, snapshot) and reads identical before/after, also after reopen"),
+        "C14" => s("C14", "seq", "fault_enumeration", 300, 3000, "per sampled history: a dry run counts fallible mutating calls; each (<= 120 quick / 400 thorough, else sampled) is failed once with EIO/ENOSPC/EMFILE/EACCES without side effect; then 2-6 more operations, clean reopen, audit under a per-key {old,new} uncertainty model"),
+        "C16" => s("C16", "seq", "exploration", 600, 6000, "round trip through the disk for every key/hash/size the API writes (all key types) + forged snapshots (canonical encodings of arbitrary entries must load exactly and re-encode identically; truncations, boundary counts/lengths, flips, trailing bytes, keys invalid for K) + forged WAL records with valid checksums over mutated payloads; open must return Ok/Err, never panic, never allocate more than file size + slack"),
+        "C17" => s("C17", "seq", "exploration", 400, 4000, "runs 0..6 enumerate all (start,end) in [0,L+2]^2 for L=run (exhaustive sub-cube); other runs: L in {7,8,100,4095,4096,8191,8192,8193,16384,70000} x bounds {0,1,L-1,L,L+1,2^32-1,2^32,2^63,2^64-1}^2 + random; half of the runs under short reads (pread64 returns 1..n-1 bytes)"),
+        "C18" => s("C18", "seq", "exploration", 1200, 12000, "runs 0..5: all 2^(len-1) chunkings of a len-byte content (+ empty-chunk variants), blob re-created each time; other runs: random contents incl. > 8 KiB with random/straddling chunkings under short writes + EINTR on the staging fd; oracle: hash == blake3(content), size == len, file at the checker-computed path with the exact bytes, no other file"),
+        "C19" => s("C19", "seq", "exploration", 3000, 30000, "histories with rejected opens at random positions: wrong num_ops_per_wal (all pairs from the alphabet), forged stored version in {0,1,3,5,2^32-1}, pre_create flipped; rejected open must leave the directory image byte-identical and issue no mutating call except opening LOCK"),
+        "C20" => s("C20", "seq", "exploration", 3000, 30000, "MON-wal-wellformed + MON-version-monotone after every mutating call touching the log or snapshot, in plain histories with restarts/checkpoints at segment boundaries and in crash-image recoveries: complete records with valid checksums, at most one trailing end marker, strictly increasing versions inside segment ranges (i*N,(i+1)*N], never reused across restarts, snapshot decodable and monotone, snapshot+log == acknowledged state or in-flight result"),
+        _ => crate::props::spec_conc(prop),
+    }
+}
+
+pub fn spec_conc(_prop: &str) -> Option<Spec> {
     None
+}
+
+pub fn spec_for_build(prop: &str) -> Option<Spec> {
+    if cfg!(feature = "conc") {
+        crate::props_conc::spec(prop)
+    } else {
+        crate::driver::spec(prop)
+    }
 }
 
 pub fn all_props_for_build() -> Vec<String> {
     if cfg!(feature = "conc") {
-        vec![]
+        crate::props_conc::CONC_PROPS.iter().map(|s| s.to_string()).collect()
     } else {
-        vec!["C01".into()]
+        ["C01", "C02", "C03", "C06", "C07", "C09", "C10", "C12", "C13", "C17", "C18", "C19", "C20"].iter().map(|s| s.to_string()).collect()
     }
 }
